@@ -143,6 +143,8 @@ def table : List Entry :=
   (scalarImpls.flatMap fun i => scalarMethods.map fun m => e i ("Scalar." ++ m) .fresh) ++
   [ e "suite" "Point/Scalar constructors" .fresh,
     e "suite" "RandomStream.XORKeyStream" .fresh "util/random: stateless stream, fresh randomness per call",
+    e "suite" "RandomStream" .fresh "the accessor returns a stream without writing to the shared suite",
+    e "suite" "key.NewKeyPair" .fresh "draws from the suite's stream, writes only the new key pair",
     e "suite" "Hash" .fresh,
     e "suite" "XOF" .fresh,
     e "pairing-bn256" "Pair" .fresh "operands cloned before MakeAffine",
@@ -159,6 +161,7 @@ def table : List Entry :=
     e "eddsa" "Verify" .fresh,
     e "bls" "Verify" .fresh,
     e "bdn" "Mask.Clone" .fresh "immutable shared tables, fresh mask bytes",
+    e "bdn" "Mask.Clone+AggregatePublicKeys" .fresh "clones share the (read-only) public keys and coefficient terms computed by NewMask",
     e "cosi" "Verify" .fresh,
     e "share" "PubPoly.Eval" .fresh,
     e "share" "PubPoly.Check" .fresh,
